@@ -22,6 +22,7 @@ mod c13;
 mod c11_live;
 mod c14s;
 mod c15;
+mod c15f;
 mod c16;
 
 pub fn run(engine: &str, toks: Vec<Tok>) -> Vec<Tok> {
@@ -31,6 +32,7 @@ pub fn run(engine: &str, toks: Vec<Tok>) -> Vec<Tok> {
         "c03_connect" => c03::connect(toks),
         "c03_v4_sweep" => c03::v4_sweep(toks),
         "bin_run" => bin::run(toks),
+        "c15_front" => c15f::run(toks),
         "c02_front" => c02f::run(toks),
         "c04_eval" => c04::eval(toks),
         "c04_front" => c04::front(toks),
